@@ -116,9 +116,11 @@ def lake_build(targets):
 def audit(module, theorems):
     """#print axioms for each theorem; returns {theorem: ('ok'|'missing'|'axioms', detail)}"""
     os.makedirs(os.path.join(BUILD, "audit"), exist_ok=True)
-    path = os.path.join(BUILD, "audit", module.replace(".", "_") + ".lean")
+    modules = [module] if isinstance(module, str) else list(module)
+    path = os.path.join(BUILD, "audit", modules[0].replace(".", "_") + ".lean")
     with open(path, "w") as f:
-        f.write("import %s\n" % module)
+        for m in modules:
+            f.write("import %s\n" % m)
         for t in theorems:
             f.write("#print axioms %s\n" % t)
     rc, so, se = run(["lake", "env", "lean", path], cwd=LEAN, timeout=1800)
